@@ -60,8 +60,15 @@ func ruleC05Roots(c *ctx.Ctx, r *core.Reporter) {
 	}
 	// linkname implementations
 	if fd := c.FuncDecl("compiler", "WriteProgramCode"); fd != nil {
-		s := squash(nodeString(c, fd.Body))
-		r.Check(strings.Contains(s, "ifgls.IsImplementation(d.LinkingName){") && strings.Contains(s, "implementsLink=true") && strings.Contains(s, "sel.Include(d,implementsLink)"), "root:linkname-implementations", c.Pos(fd.Pos()), "a decl that implements a go:linkname reference is handed to the selector as a root")
+		okRoot := false
+		for _, m := range findGoPattern(fd.Body, `if µg.IsImplementation(µd.LinkingName) { µµa; µf = true; µµb }`) {
+			for _, m2 := range findGoPattern(fd.Body, `µs.Include(µd, µf)`) {
+				if m2.Env["µf"] == m.Env["µf"] && m2.Env["µd"] == m.Env["µd"] {
+					okRoot = true
+				}
+			}
+		}
+		r.Check(okRoot, "root:linkname-implementations", c.Pos(fd.Pos()), "a decl that implements a go:linkname reference is handed to the selector as a root")
 	}
 	if fd := c.FuncDecl("compiler/internal/dce", "Selector.Include"); fd != nil {
 		s := squash(nodeString(c, fd.Body))
